@@ -11,8 +11,11 @@ cp -r $WT/seed/. $D/demo/ 2>/dev/null || { mkdir -p $D/demo; cp -r $WT/seed/* $D
 rm -f $D/demo/patch.diff $D/demo/meta.json
 CLEAN=/tmp/wt/clean-$ID
 git -C /repo worktree add -q --detach $CLEAN HEAD
-( cd $CLEAN && bash $D/demo/demo.sh $CLEAN >/tmp/tj/demo-clean-$ID.log 2>&1 ); echo "demo on clean tree: exit $?"
-git -C $CLEAN apply $D/patch.diff && ( cd $CLEAN && bash $D/demo/demo.sh $CLEAN >/tmp/tj/demo-patched-$ID.log 2>&1 ); echo "demo on patched tree: exit $?"
+# the demo runs from <tree>/seed (some demos build a simulator they keep next to demo.sh)
+mkdir -p $CLEAN/seed; cp -r $D/demo/. $CLEAN/seed/
+( cd $CLEAN && bash seed/demo.sh $CLEAN >/tmp/tj/demo-clean-$ID.log 2>&1 ); echo "demo on clean tree: exit $?"
+git -C $CLEAN apply $D/patch.diff && ( cd $CLEAN && bash seed/demo.sh $CLEAN >/tmp/tj/demo-patched-$ID.log 2>&1 ); echo "demo on patched tree: exit $?"
+rm -rf $CLEAN/seed
 # the checks run against this patched scratch worktree (VERIF_REPO), /repo itself stays untouched
 export VERIF_REPO=$CLEAN
 /verif/baseline_off.sh | tail -3
